@@ -28,7 +28,8 @@ Lemma nat_eqb_eq a b : Nat.eqb a b = true -> a = b. Proof. apply Nat.eqb_eq. Qed
 Lemma z_eqb_eq a b : Z.eqb a b = true -> a = b. Proof. apply Z.eqb_eq. Qed.
 
 Definition resp_eqb (a b : resp) : bool :=
-  rkind_eqb (r_kind a) (r_kind b) && Z.eqb (r_code a) (r_code b) && Bool.eqb (r_data a) (r_data b) && Bool.eqb (r_trailers a) (r_trailers b).
+  rkind_eqb (r_kind a) (r_kind b) && Z.eqb (r_code a) (r_code b) && Bool.eqb (r_data a) (r_data b) && Bool.eqb (r_trailers a) (r_trailers b) &&
+  rkind_eqb (r_body a) (r_body b).
 Lemma resp_eqb_eq a b : resp_eqb a b = true -> a = b.
 Proof.
   destruct a, b; unfold resp_eqb; cbn; intros H.
@@ -82,7 +83,7 @@ Definition gs_eqb (a b : gs) : bool :=
   Bool.eqb (g_new_after_start a) (g_new_after_start b) && Bool.eqb (g_denied a) (g_denied b) &&
   Bool.eqb (g_new_after_deny a) (g_new_after_deny b) && Bool.eqb (g_term a) (g_term b) && Z.eqb (g_gauge a) (g_gauge b) &&
   Z.eqb (g_res a) (g_res b) && Z.eqb (g_res_min a) (g_res_min b) && Bool.eqb (g_panic a) (g_panic b) &&
-  Bool.eqb (g_leak a) (g_leak b) && Bool.eqb (g_fin_bad a) (g_fin_bad b) &&
+  Bool.eqb (g_leak a) (g_leak b) && Bool.eqb (g_fin_bad a) (g_fin_bad b) && Bool.eqb (g_mixed a) (g_mixed b) &&
   opt_eqb rk_eqb (g_reply_kind a) (g_reply_kind b).
 Lemma gs_eqb_eq a b : gs_eqb a b = true -> a = b.
 Proof.
